@@ -75,10 +75,17 @@ CTX_LEAF = ('get_unsandboxed_pointer(contract)', _is_named('get_unsandboxed_poin
 
 
 # ---------------------------------------------------------------- loads of pointer cells (object view)
+def ptr_to(pointee, const=False):
+    """clang's spelling of pointer-to-(const) pointee"""
+    if pointee.endswith('*'):
+        return pointee + ('const *' if const else '*')
+    return ('const ' if const else '') + pointee + ' *'
+
+
 def load_ptr_cell(form, pointee, tier):
     """form: ctor (tainted<T*> t = tv) | unverified (tv.UNSAFE_unverified())"""
-    TV = cs('rlbox::tainted_volatile<%s *, rlbox::vsbx>' % pointee)
-    TT = cs('rlbox::tainted<%s *, rlbox::vsbx>' % pointee)
+    TV = cs('rlbox::tainted_volatile<%s, rlbox::vsbx>' % ptr_to(pointee))
+    TT = cs('rlbox::tainted<%s, rlbox::vsbx>' % ptr_to(pointee))
     cell = '$0' if form == 'ctor' else '$this'
     res = '((uintptr_t)$ret.data)' if form == 'ctor' else '((uintptr_t)$ret)'
     cl = [
@@ -93,7 +100,7 @@ def load_ptr_cell(form, pointee, tier):
     if form == 'ctor':
         h += '  struct %s r = $ROOT(&cell);\n' % TT
         params, expr, rn = 'tainted_volatile<%s*, vsbx>& tv' % pointee, 'tainted<%s*, vsbx> t = tv;' % pointee, 'tainted'
-        pick = lambda tu, fn: find_func(tu, 'tainted', 'rlbox::tainted<%s *, rlbox::vsbx>' % pointee, lambda f, rn_: 'tainted_volatile' in f['type']['qualType'])
+        pick = lambda tu, fn: find_func(tu, 'tainted', 'rlbox::tainted<%s, rlbox::vsbx>' % ptr_to(pointee), lambda f, rn_: 'tainted_volatile' in f['type']['qualType'])
     else:
         h += '  void *r = (void *)$ROOT((void *)&cell);\n'
         params, expr, rn = 'tainted_volatile<%s*, vsbx>& tv' % pointee, 'tv.UNSAFE_unverified();', 'UNSAFE_unverified'
@@ -105,7 +112,7 @@ def load_ptr_cell(form, pointee, tier):
 
 # ---------------------------------------------------------------- dereference and address-of
 def deref_inst(op, pointee, tier):
-    TT = cs('rlbox::tainted<%s *, rlbox::vsbx>' % pointee)
+    TT = cs('rlbox::tainted<%s, rlbox::vsbx>' % ptr_to(pointee))
     P = '((uintptr_t)((const struct %s *)$this)->data)' % TT
     cl = [('obj', '__CPROVER_requires(__CPROVER_r_ok((const struct %s *)$this, sizeof(struct %s)))' % (TT, TT)),
           ('designates_pointee', '__CPROVER_ensures((uintptr_t)$ret == %s)' % P),
@@ -122,7 +129,7 @@ def addrof_inst(const, pointee, tier):
     cl = [('address_of_this', '__CPROVER_ensures((uintptr_t)$ret.data == (uintptr_t)$this)'),
           ('frame', '__CPROVER_assigns()')]
     cq = 'const ' if const else ''
-    h = '  uintptr_t in_cell;\n  struct %s r = $ROOT((void *)in_cell);\n' % cs('rlbox::tainted<%s%s *, rlbox::vsbx>' % (cq, pointee))
+    h = '  uintptr_t in_cell;\n  struct %s r = $ROOT((void *)in_cell);\n' % cs('rlbox::tainted<%s, rlbox::vsbx>' % ptr_to(pointee, const))
     return Inst('c03_addrof_%s%s' % ('const_' if const else '', pointee.replace(' ', '_').replace('*', 'p')),
                 '%stainted_volatile<%s, vsbx>& tv' % (cq, pointee), '&tv;', cl, h, leaves=[], prop=PROP, root_name='operator&', tier=tier,
                 pre=PRE_GHOST, note='ptr_inv of the result follows from cell_inv of tv: same address')
@@ -180,7 +187,12 @@ def backend_insts(tier):
     def mk(name, key, snippet_params, snippet_expr, call, extra_decl='', obj_req=True):
         pred, text = LEAVES[key]
         text = clauses_text(text)
-        pick = lambda tu, fn, name=name: find_func(tu, name, 'rlbox::vsbx')
+        def pick(tu, fn, name=name):
+            try:
+                return find_func(tu, name, 'rlbox::vsbx')
+            except Exception:
+                # several instantiations of one member template (one per pointer type used in the unit): same body, take T = int*
+                return find_func(tu, name, 'rlbox::vsbx', lambda f, rn: 'IPiE' in f.get('mangledName', ''))
         cl = text
         if obj_req:
             cl = '__CPROVER_requires(V_BACKEND_WF && ($this->slot == 0 || $this->slot == 1) && V_LIVE($this->slot))\n' + text
@@ -222,7 +234,20 @@ def units(tier):
         it.prop = PROP
         insts.append(it)
     insts += backend_insts(tier)
-    return [Unit('C03_ptr_invariant', insts)]
+    # reading struct fields: a whole-struct copy out of sandbox memory (macro-expanded tainted<S>(const tainted_volatile<S>&),
+    # contract of C08) yields pointer fields that are null or inside the sandbox the struct lives in
+    from . import C08
+    sinsts = []
+    for S in (['VOuter'] if tier == 'quick' else ['VOuter', 'VRev']):
+        it = C08.load_inst(S, tier)
+        it.name = it.name.replace('c08_', 'c03_struct_')
+        it.prop = PROP
+        W = 'V_WHICH((uintptr_t)$0)'
+        it.contract = [c for c in it.contract if c[0] != 'frame'] + [
+            ('pointer_field_null_or_inside_the_structs_sandbox', '__CPROVER_ensures((uintptr_t)$ret.p.data == 0 || V_IN(%s, (uintptr_t)$ret.p.data))' % W),
+            ('frame', '__CPROVER_assigns()')]
+        sinsts.append(it)
+    return [Unit('C03_ptr_invariant', insts), Unit('C03_struct_fields', sinsts, includes=('rlbox.hpp', 'vsbx.hpp', 'vstructs.hpp'))]
 
 
 ASSUMPTIONS = [
